@@ -354,6 +354,11 @@ func GenDataset(t *rapid.T, o DatasetOpts) *Dataset {
 		o.MinEvents = 1
 	}
 	n := rapid.IntRange(o.MinEvents, o.MaxEvents).Draw(t, "nEvents")
+	if o.NullPct > 0 && rapid.Bool().Draw(t, "noExplicitNulls") {
+		// half of the datasets carry no explicit null at all: a missing field and an explicit null
+		// take different ingest paths (an explicit null marks the column's size inconsistent)
+		o.NullPct = 0
+	}
 	cols := GenColumns(t, o, n)
 	tss := GenTimestamps(t, n, o.TsMode)
 	ds := &Dataset{Columns: cols}
